@@ -11,6 +11,9 @@
 import Asn1.Generated
 import Proofs.StreamIter
 import Proofs.StreamRaw
+import Proofs.StreamTyped
+import Props.C02
+import Props.C09
 
 namespace Asn1.C05
 
@@ -100,6 +103,71 @@ theorem stream_items_any_schedule (cfg : ParseCfg) (k : Kind) (hk : k.Stable) (B
       s'.pos = (serList ts).length ∧ s'.out = (ends 0 ts).reverse := by
   rw [schedule_independent k hk B _ (noReadAll_streamP cfg _) chunks, hc]
   exact run_streamP_items cfg k B ts hne hw ho hnd
+
+/-! ### the typed end: what was encoded is what is yielded, under any schedule -/
+
+/-- the trees a streaming run emitted, in order -/
+def emitted (s : St (TLV × Nat)) : List TLV := s.out.reverse.map (·.1)
+
+theorem ends_fst : ∀ (p : Nat) (ts : List TLV), (ends p ts).map (·.1) = ts
+  | _, [] => rfl
+  | p, t :: ts => by simp [ends, ends_fst _ ts]
+
+/-- **a stream of encoded values is decoded to those values under any arrival schedule** (any encoder /
+    decoder pair with a common profile; types of the codec region).  The values `vs` of type `t` are
+    encoded one after the other; the octets arrive in any chunks, with any "no data yet" polls, the end
+    signalled with or after the last octet, on a growing seekable stream (K3) — and on a non-seekable
+    stream behind the caching wrapper (K4) as long as the stream fits its buffer (finding S4 otherwise).
+    Then the streaming decoder stops normally at the end of the data, having yielded exactly as many
+    elements as values were encoded, and the guided decoder reads the i-th element as the i-th value
+    (up to the order of SET OF elements). -/
+theorem stream_values_any_schedule (cfg : EncCfg) (dcfg : DecCfg) (pf : Profile) (o : EncOpts) (hi : o.ifNotEmpty = false)
+    (hR : EncRegion cfg pf (cfg.fixedChunk.getD o.maxChunk)) (hC : Compat pf dcfg)
+    (hparse : cfg.fixedDefMode.getD o.defMode = true ∨ dcfg.parse.allowIndef = true)
+    (t : Ty) (hreg : t.reg true cfg (cfg.fixedDefMode.getD o.defMode) = true) (hwf : t.WF = true)
+    (vs : List Val) (hne : vs ≠ []) (hv : ∀ v ∈ vs, HasType t v = true ∧ noE3 cfg.seqOmitEmpty t v = true)
+    (bs : List Bytes) (henc : encodeAll cfg o t vs = .ok bs)
+    (k : Kind) (hk : k.Stable) (B : Nat) (hnd : NoDropK k B bs.flatten)
+    (chunks : List Bytes) (hc : chunks.flatten = bs.flatten) :
+    ∃ s', runSched k B [] chunks (streamP dcfg.parse bs.flatten.length) {} = .done () s' ∧
+      s'.pos = bs.flatten.length ∧ Decoded dcfg t vs (emitted s') := by
+  obtain ⟨xs, hs, hl, hw, hdef, hd⟩ := encodeAll_trees cfg dcfg pf o hi hR hC t hreg hwf vs bs hv henc
+  have hxne : xs ≠ [] := by
+    intro h0; subst h0
+    cases vs with
+    | nil => exact hne rfl
+    | cons _ _ => simp at hl
+  have hok : okForL dcfg.parse xs := by
+    rcases hparse with hp | hp
+    · exact Or.inr (hdef hp)
+    · exact Or.inl hp
+  rw [hs] at hnd hc ⊢
+  obtain ⟨s', hrun, hpos, hout⟩ := stream_items_any_schedule dcfg.parse k hk B xs hxne hw hok hnd chunks hc
+  refine ⟨s', hrun, hpos, ?_⟩
+  simp only [emitted, hout, List.reverse_reverse, ends_fst]
+  exact hd
+
+/-- instance: DER-encoded values streamed to the DER, CER or BER decoder; BER (any mode) to the BER decoder -/
+theorem stream_values_der (o : EncOpts) (hi : o.ifNotEmpty = false) (t : Ty)
+    (hreg : t.reg true Generated.derEnc true = true) (hwf : t.WF = true)
+    (vs : List Val) (hne : vs ≠ []) (hv : ∀ v ∈ vs, HasType t v = true ∧ noE3 true t v = true)
+    (bs : List Bytes) (henc : encodeAll Generated.derEnc o t vs = .ok bs)
+    (k : Kind) (hk : k.Stable) (B : Nat) (hnd : NoDropK k B bs.flatten) (chunks : List Bytes) (hc : chunks.flatten = bs.flatten) :
+    ∃ s', runSched k B [] chunks (streamP Generated.derDecByType.parse bs.flatten.length) {} = .done () s' ∧
+      s'.pos = bs.flatten.length ∧ Decoded Generated.derDecByType t vs (emitted s') :=
+  stream_values_any_schedule Generated.derEnc Generated.derDecByType derProfile o hi (C02.der_region o)
+    C02.der_profile_all_decoders.1 (Or.inl rfl) t hreg hwf vs hne hv bs henc k hk B hnd chunks hc
+
+theorem stream_values_ber (o : EncOpts) (hi : o.ifNotEmpty = false) (t : Ty)
+    (hreg : t.reg true Generated.berEnc o.defMode = true) (hwf : t.WF = true)
+    (vs : List Val) (hne : vs ≠ []) (hv : ∀ v ∈ vs, HasType t v = true)
+    (bs : List Bytes) (henc : encodeAll Generated.berEnc o t vs = .ok bs)
+    (k : Kind) (hk : k.Stable) (B : Nat) (hnd : NoDropK k B bs.flatten) (chunks : List Bytes) (hc : chunks.flatten = bs.flatten) :
+    ∃ s', runSched k B [] chunks (streamP Generated.berDecByType.parse bs.flatten.length) {} = .done () s' ∧
+      s'.pos = bs.flatten.length ∧ Decoded Generated.berDecByType t vs (emitted s') :=
+  stream_values_any_schedule Generated.berEnc Generated.berDecByType berProfile o hi
+    { boolT := by decide, chunk := Or.inr rfl, setOmit := Or.inl rfl } C09.ber_compat (Or.inr rfl) t hreg hwf vs hne
+    (fun v h => ⟨hv v h, noE3_false t v⟩) bs henc k hk B hnd chunks hc
 
 /-! ### obligations over the generated audit tables -/
 
